@@ -93,7 +93,16 @@ class FuncGen(object):
 
     def jump(self, b, target):
         assert b.term is None
-        b.term = AssignBlock({self.ctx.IRDst: self.loc(target)})
+        d = {self.ctx.IRDst: self.loc(target)}
+        if self.rng.random() < 0.25:
+            # like lifted code, the jump shares its (parallel) assignblock with other effects
+            self.features.add("jump_with_effect")
+            if self.rng.random() < 0.3:
+                d[ExprMem(self.g.ptr(), 32)] = self.g.value(32, 1)
+            else:
+                dst = self.g.dst_reg(allow_sp=False)
+                d[dst] = self.g.value(dst.size, 1)
+        b.term = AssignBlock(d)
 
     def branch(self, b, cond, t, f, extra=None):
         assert b.term is None
